@@ -174,7 +174,7 @@ class Assign:
             if not self.missing:
                 raise
 
-            remaining_path = self._orig_path[pae.part_idx + 1:]
+            remaining_path = self._orig_path[pae.part_idx + 1:].from_t()
             val = scope[glom](self.missing(), Assign(remaining_path, Val(val), missing=self.missing), scope)
 
             op, arg = self._orig_path.items()[pae.part_idx]
